@@ -177,8 +177,16 @@ fn run_sel(c: &SelCase, lx: &mut Local) {
             seen
         })
         .collect();
-    for mask in 1u32..(1 << n) {
-        let idx: Vec<usize> = (0..n).filter(|i| mask >> i & 1 == 1).rev().collect();
+    // request lists: every non-empty subset (in decreasing order), and for n <= 4 every list of n and of
+    // n + 1 positions with repeats allowed, in every order (a list as long as the array that does not
+    // name every position; a list longer than the array)
+    let mut lists: Vec<Vec<usize>> = (1u32..(1 << n)).map(|mask| (0..n).filter(|i| mask >> i & 1 == 1).rev().collect()).collect();
+    if n >= 2 && n <= 4 {
+        for len in [n, n + 1] {
+            lists.extend(nsmc::patterns::sequences(len, n).map(|s| s.into_iter().map(|d| d as usize).collect::<Vec<usize>>()));
+        }
+    }
+    for idx in lists {
         lx.explore(&PivotMode::All, |lx| {
             let mut a = Array1::from(vals.clone());
             let r = guarded(|| a.get_many_from_sorted_mut(&Array1::from(idx.clone())));
